@@ -225,7 +225,22 @@ func c05Spawn(p *Program, r *Report) {
 			good = false
 		}
 	}
-	r.Check(good, "OnLaunch is the first message told to the child", firstPos(g, launch), "every other send in ActorOf and the success return are dominated by the OnLaunch tell")
+	// the child's reference is announced on the event stream only after the launch: a subscriber that reacts to the announcement
+	// by messaging the new actor must find OnLaunch already queued
+	for i, in := range g.Nodes {
+		if c := callOf(in); c != nil && c.IsInvoke() && c.Method.Name() == "Publish" && !g.DominatedByNodes(i, launch) {
+			anyAfterReg := false
+			for rn := range reg {
+				if g.ReachAfter(rn, nil, nil)[i] {
+					anyAfterReg = true
+				}
+			}
+			if anyAfterReg {
+				good = false
+			}
+		}
+	}
+	r.Check(good, "OnLaunch is the first message told to the child", firstPos(g, launch), "every other send in ActorOf, every event published after the registration and the success return are dominated by the OnLaunch tell")
 }
 
 func c05Construct(p *Program, r *Report) {
